@@ -48,3 +48,4 @@ Print Assumptions C13_small_component_outside.
 Print Assumptions C13_multiples_inside.
 Print Assumptions C13_small_order_outside.
 Print Assumptions C13_model_is_the_source.
+Print Assumptions C13_zero_zero_outside.
